@@ -1051,3 +1051,23 @@ def boundary_literals():
             seen.add(s)
             res.append((k, s))
     return res
+
+
+FUNC_CTX = ['int g(long long a) { return a < @; }', 'unsigned h(unsigned a) { return a + @; }',
+            'long long k(long long a) { return a * @ - (a | @); }', 'int s(unsigned long long a) { return a == @ ? 1 : 2; }',
+            'void g(long long x) { switch (x) { case @: break; } }']
+
+
+def boundary_functions():
+    """[(kind, text)]: the boundary integer literals as operands in function code; compiled with api.cc, because
+    an out-of-range constant that the front-end lets through only fails in the optimizer / instruction selector"""
+    vals = set()
+    for b in (7, 8, 15, 16, 31, 32, 63, 64):
+        vals.update({(1 << b) - 1, 1 << b, (1 << b) + 1})
+    out = []
+    for v in sorted(vals):
+        for s in INT_SUFFIXES:
+            for f in (str(v) + s, _radix(v, 'x') + s):
+                for c in FUNC_CTX:
+                    out.append(('c-boundary-cc', MINI + c.replace('@', f) + '\n'))
+    return out
